@@ -27,7 +27,7 @@ Apply(st, e) ==
       [] e.op = "Rename"    -> DoAlloc(st, e.rd, RenameT(TT(st, e.r), e.c, e.c2))
       [] e.op = "Concat"    -> DoAlloc(st, e.rd, ConcatT(TT(st, e.ra), TT(st, e.rb)))
       [] e.op = "AddRecord" -> DoAlloc(st, e.rd, ConcatT(TT(st, e.r), RecordT(e.rec)))
-      [] e.op = "Copy"      -> DoAlloc(st, e.rd, Ok(TT(st, e.r)))
+      [] e.op \in {"Copy", "NoFilter"} -> DoAlloc(st, e.rd, Ok(TT(st, e.r)))
       [] e.op \in {"AddNone", "ConcatOne"} -> [heap |-> st.heap, reg |-> [st.reg EXCEPT ![e.rd] = st.reg[e.r]], out |-> "ok"]
 
 \* the logged projection of one register against the abstract table
